@@ -186,7 +186,9 @@ class RemoteAssertionTraceObserver(ex.RemoteExecutionObserver):
             trace: The assertion trace where the observed assertions are stored.
         """
         module_alias = get_module_alias(config.configuration.module_name)
-        seen_types = {type(tt.unwrap(namespace.get(name))) for name in watch_list}
+        # A dict keeps the order of the watch list; the iteration order of a set of types
+        # depends on object addresses and would reorder the recorded assertions.
+        seen_types = dict.fromkeys(type(tt.unwrap(namespace.get(name))) for name in watch_list)
         for seen_type in seen_types:
             if not self._is_static_field_owner(seen_type):
                 continue
